@@ -361,6 +361,60 @@ func ruleLoadCallbackChecked(c *Ctx) {
 	}
 }
 
+// ruleStaleReportsItself: when the checked insertion refuses a loaded record as
+// stale, the record it reports for deletion is that record — the argument — and
+// not the cached region it lost against (nil when it merely overlaps newer
+// regions of other ids: the loader would then delete "region 0" and keep the
+// stale record for ever).
+func ruleStaleReportsItself(c *Ctx) {
+	P := c.P
+	rule := c.Prop + "/load-prunes"
+	fn := P.Method("server/core", "BasicCluster", "CheckAndPutRegion")
+	c.saw(fnName(fn))
+	if len(fn.Params) < 2 {
+		c.Undec(rule, fnName(fn), "a region parameter", "", "")
+		return
+	}
+	region := fn.Params[1]
+	n := 0
+	for _, b := range fn.Blocks {
+		r, ok := b.Instrs[len(b.Instrs)-1].(*ssa.Return)
+		if !ok || len(r.Results) != 1 {
+			continue
+		}
+		for _, alt := range valueAlternatives(retVal(r, 0), 3) {
+			sl, ok := strip(alt).(*ssa.Slice)
+			if !ok {
+				continue
+			}
+			al, ok := sl.X.(*ssa.Alloc)
+			if !ok {
+				continue
+			}
+			n++
+			okElem, k := true, 0
+			for _, ref := range *al.Referrers() {
+				ia, ok := ref.(*ssa.IndexAddr)
+				if !ok {
+					continue
+				}
+				for _, rr := range *ia.Referrers() {
+					if st, ok := rr.(*ssa.Store); ok && st.Addr == ssa.Value(ia) {
+						k++
+						if strip(st.Val) != ssa.Value(region) {
+							okElem = false
+						}
+					}
+				}
+			}
+			c.Check(okElem && k > 0, rule, fmt.Sprintf("records reported by the refusing branch #%d of %s", n, fnName(fn)), "the refused record itself (the argument), which the loader then deletes from storage", P.instrPos(r), "")
+		}
+	}
+	if n == 0 {
+		c.Undec(rule, "refusing branch of "+fnName(fn), "a literal list of records to delete", "", "")
+	}
+}
+
 // ruleLoadedOnceAfterSuccess: LoadRegionsOnce remembers "loaded" only after
 // the load returned without an error; a failed first load is repeated.
 func ruleLoadedOnceAfterSuccess(c *Ctx) {
@@ -519,7 +573,7 @@ func ruleRegionBackendSelection(c *Ctx) {
 func init() {
 	register("C17", "Persisted stores and regions are loaded back completely and pruned consistently", func(c *Ctx) {
 		c.Group("C17/key-format", "all store/region key builders (storage, bootstrap, weights) render ids with the same zero-padded width and segments", func() { ruleKeyFormats(c) })
-		c.Group("C17/load-prunes", "loading deletes every region the callback reports from the backend being read, pages by last id + 1 and stops only on a short page; items live under their own id's key", func() { ruleLoadAndPrune(c); ruleLoadedOnceAfterSuccess(c); ruleLoadCallbackChecked(c) })
+		c.Group("C17/load-prunes", "loading deletes every region the callback reports from the backend being read, pages by last id + 1 and stops only on a short page; items live under their own id's key", func() { ruleLoadAndPrune(c); ruleLoadedOnceAfterSuccess(c); ruleLoadCallbackChecked(c); ruleStaleReportsItself(c) })
 		c.Group("C17/weights-written", "SaveStoreWeight writes both weight keys unconditionally", func() { ruleWeightsAlwaysWritten(c) })
 		c.Group("C17/storage-errors", "no storage function reports success after a kv call whose error was not found nil", func() { ruleStorageErrorDiscipline(c) })
 		c.Group("C17/backend-selection", "load, save and delete of region records select the backend by the same useRegionStorage test", func() { ruleRegionBackendSelection(c) })
